@@ -53,36 +53,51 @@ def handlePelt (ws : List String) : String :=
 
 def epsBeta : Rat := 1 / 100000000   -- the `1e-8` of `penalise_savings`
 
-/-- `capa kadj n p m M delay ca cb_0..cb_{p-1} pa pb_0..pb_{p-1} <collective savings: for s<e row-major,
+def pickMaxOf : String → Option ((Nat → Rat) → List Nat → Nat)
+  | "first" => some argmaxL
+  | "last" => some argmaxLast
+  | _ => none
+def prCOf : String → Option (Rat → Rat → Bool)
+  | "lt" => some prLt
+  | "le" => some (fun x v => decide (x ≤ v))
+  | "never" => some (fun _ _ => false)
+  | _ => none
+
+/-- `capa <pick> <prune> kadj n p m M delay ca cb_0..cb_{p-1} pa pb_0..pb_{p-1} <collective savings: for s<e row-major,
     p values each> <point savings: n rows of p values>`; `cb`/`pb` lists have `p` entries (CAPA
     passes the single 0 as p zeros — same branch); `kadj` is added to the pruning slack (0 = code)
     → `opt […] anoms […]` -/
-def handleCapa (ws : List String) : String :=
-  match ws.mapM parseRat with
-  | none => "bad-op"
-  | some nums =>
-    match nums with
-    | kadj :: n :: p :: m :: M :: delay :: rest =>
-      let n := n.num.toNat; let p := p.num.toNat; let m := m.num.toNat; let M := M.num.toNat
-      let delay := delay.num.toNat
-      let arr := rest.toArray
-      if arr.size ≠ 2 + 2 * p + (n * (n + 1) / 2) * p + n * p ∨ p = 0 then "bad-op" else
-      let ca := arr.getD 0 0
-      let cb := (List.range p).map (fun j => arr.getD (1 + j) 0)
-      let pa := arr.getD (1 + p) 0
-      let pb := (List.range p).map (fun j => arr.getD (2 + p + j) 0)
-      let off := 2 + 2 * p
-      let csav (s e : Nat) : List Rat :=
-        (List.range p).map (fun j => arr.getD (off + (triIdx n s e) * p + j) 0)
-      let off2 := off + (n * (n + 1) / 2) * p
-      let psav (t : Nat) : List Rat := (List.range p).map (fun j => arr.getD (off2 + t * p + j) 0)
-      let PS (s e : Nat) : Rat := penalise epsBeta (csav s e) ca cb
-      let PP (t : Nat) : Rat := penalise epsBeta (psav t) pa pb
-      -- `kadj` (0 for the code) perturbs the pruning slack; used only to mine boundary inputs
-      let K : Rat := ca + sumL cb + kadj
-      let r := runCapa PS PP K m M delay n
-      s!"opt {fmtL ((List.range n).map (fun i => r.1 (i + 1)))} anoms {r.2}"
-    | _ => "bad-op"
+def handleCapaWith (pick : (Nat → Rat) → List Nat → Nat) (prC : Rat → Rat → Bool) (nums : List Rat) : String :=
+  match nums with
+  | kadj :: n :: p :: m :: M :: delay :: rest =>
+    let n := n.num.toNat; let p := p.num.toNat; let m := m.num.toNat; let M := M.num.toNat
+    let delay := delay.num.toNat
+    let arr := rest.toArray
+    if arr.size ≠ 2 + 2 * p + (n * (n + 1) / 2) * p + n * p ∨ p = 0 then "bad-op" else
+    let ca := arr.getD 0 0
+    let cb := (List.range p).map (fun j => arr.getD (1 + j) 0)
+    let pa := arr.getD (1 + p) 0
+    let pb := (List.range p).map (fun j => arr.getD (2 + p + j) 0)
+    let off := 2 + 2 * p
+    let csav (s e : Nat) : List Rat :=
+      (List.range p).map (fun j => arr.getD (off + (triIdx n s e) * p + j) 0)
+    let off2 := off + (n * (n + 1) / 2) * p
+    let psav (t : Nat) : List Rat := (List.range p).map (fun j => arr.getD (off2 + t * p + j) 0)
+    let PS (s e : Nat) : Rat := penalise epsBeta (csav s e) ca cb
+    let PP (t : Nat) : Rat := penalise epsBeta (psav t) pa pb
+    -- `kadj` (0 for the code) perturbs the pruning slack; used only to mine boundary inputs
+    let K : Rat := ca + sumL cb + kadj
+    let r := runCapaG pick prC PS PP K m M delay n
+    s!"opt {fmtL ((List.range n).map (fun i => r.1 (i + 1)))} anoms {r.2}"
+  | _ => "bad-op"
+
+def handleCapa (ws0 : List String) : String :=
+  match ws0 with
+  | pk :: prn :: ws =>
+    (match pickMaxOf pk, prCOf prn, ws.mapM parseRat with
+     | some pick, some prC, some nums => handleCapaWith pick prC nums
+     | _, _, _ => "bad-op")
+  | _ => "bad-op"
 
 /-- `penalise p alpha b_0.. s_0..` → value;  `affected p alpha b_0.. s_0..` → column list -/
 def handlePen (aff : Bool) (ws : List String) : String :=
